@@ -77,6 +77,15 @@ def check_truncate(prog, rep):
             rep.violation('TRUNC-combine', m, q, 'guard:%s' % name,
                           'constraint %r must be applied under a test of its own option' % name,
                           st.lineno)
+        elif names_in(guard.test) - optnames - {'np'}:
+            rep.violation('TRUNC-combine', m, q, 'guard-depends-on-data:%s' % name,
+                          'whether constraint %r applies is decided by `%s`, which also depends '
+                          'on %s: a constraint is switched on by its option alone; whether it can '
+                          'be satisfied for the given spectrum is the business of '
+                          '_combine_constraints (fallback with a warning), so a data-dependent '
+                          'guard silently drops a satisfiable, higher-priority constraint' %
+                          (name, unparse(guard.test), sorted(names_in(guard.test) - optnames)),
+                          st.lineno)
         else:
             blk = guard.body
             uses = set()
